@@ -24,6 +24,29 @@ CHECKS["C11"] = dict(
     note="Where a Move/Zoom lands is decided by navigate.yaml and is deliberately unspecified (only: within the expression). Trusted: ids in the returned MathML, TLC, the projection of results into events.",
 )
 
+_CANON_NOTE = "Trusted: Python's ElementTree as an independent XML parser for inputs and outputs; the character normalisation table of Canon.tla (transcribed from the documented normalisations); TLC. Inputs on which set_mathml returns Err are outside (C08)."
+CHECKS["C01"] = dict(
+    category="model_checking",
+    technique="TLC-enumerated tree contexts (TreeGen.tla) concretised and run through set_mathml; TLC judges Visible(out) = Visible(in) (Canon.tla / Trace_Canon.tla) on every recorded pair, incl. the suite's expressions and their degenerate-child mutants",
+    text="Small-scope exhaustive on the input side: every context P(..Q(..leaf or degenerate filler..)..) of 20 element kinds x 16 leaf/filler classes to depth 2 (29k abstract trees; sampled in quick, all in thorough), deeper simulated nestings, two token alphabets (heuristic-neutral, heuristic-triggering), six separator locales, plus the suite's 2 220 expressions and their mutants. The oracle Visible() is a TLA+ operator evaluated by TLC on the real input/output trees.",
+    design_ref="DESIGN.md section 5 C01",
+    note=_CANON_NOTE,
+)
+CHECKS["C02"] = dict(
+    category="model_checking",
+    technique="same TLC-generated inputs as C01; TLC evaluates WellFormedCanon (arities, paired multiscripts, no empty token, no redundant mrow, wrappers removed) on every returned tree; the returned string must parse with an independent XML parser",
+    text="WellFormedCanon is a TLA+ predicate (Canon.tla) evaluated by TLC on every tree returned by set_mathml for the TLC-enumerated contexts, simulated deep trees, suite expressions and degenerate-child mutants; escaping is checked by parsing the returned string with an independent parser and comparing visible content (C01's oracle).",
+    design_ref="DESIGN.md section 5 C02",
+    note=_CANON_NOTE,
+)
+CHECKS["C09"] = dict(
+    category="model_checking",
+    technique="same TLC-generated inputs as C01 under four author-id modes (none, all, alternate, duplicates); TLC evaluates the id predicates of Canon.tla on every returned tree; ids handed out later are judged by the navigation traces (Trace_Nav.tla: position in Ids(expr))",
+    text="Every element has an id, library ids are fresh, author ids stay distinct and stay on the token that carries their text: TLA+ predicates evaluated by TLC on the real output for the enumerated contexts x id modes. The 'ids handed out later' clause is covered by the C11 navigation traces (position and get_navigation_mathml ids must be ids of the returned tree) which this check re-runs in a reduced form.",
+    design_ref="DESIGN.md section 5 C09",
+    note=_CANON_NOTE + " Tokens that canonicalization splits or merges are outside the author-id clause.",
+)
+
 NOT_YET = {}
 
 
